@@ -270,8 +270,33 @@ pub fn play(env: &Env, sc: &Scenario, tag: &str) -> Result<Outcome, Fail> {
         }
     }
     let Some(table) = table else { return Err(skip("the markers did not come through")) };
-    // give the pipe reader a moment, then stop the process and collect everything it printed
-    std::thread::sleep(Duration::from_millis(50));
+    // The table is updated before the same loop iteration prints the record. Keep the markers coming until the table
+    // has counted a further one: the loop has then moved past every record of `table`, so all their lines are out.
+    let count0 = |t: &Value| t.as_array().and_then(|a| a.iter().find(|e| e["icao24"] == format!("{MARKER_ADDR:06x}"))).and_then(|e| e["count"].as_u64()).unwrap_or(0);
+    let base = count0(&table);
+    let mut moved = false;
+    for k in 400..800u32 {
+        n += 1;
+        let b = beast(&marker(0, k), n);
+        if conns[0].write_all(&b).is_err() {
+            return Err(skip("write to jet1090 failed"));
+        }
+        std::thread::sleep(Duration::from_millis(sc.dedup_ms as u64 / 2 + 25));
+        if let Some(t) = http_get_all(web) {
+            if count0(&t) > base {
+                moved = true;
+                break;
+            }
+        }
+        if Instant::now() > deadline {
+            break;
+        }
+    }
+    if !moved {
+        return Err(skip("the markers stopped coming through"));
+    }
+    // the pipe reader gets a moment, then the process is stopped and everything it printed is collected
+    std::thread::sleep(Duration::from_millis(30));
     drop(conns);
     let _ = child.0.kill();
     let _ = child.0.wait();
